@@ -324,8 +324,10 @@ class SpecSM:
         """done()/on_disable() from outside a state"""
         self.left_selected = None
         if self.cur == self.sp.default and self.cur is not None:
-            # was the default state the running one?  its next initial_call is unspecified
-            self.has_run[self.sp.default] = None
+            # the default state was the running one: done() leaves it as well (current_state becomes ''), so the
+            # next iteration falls back to it anew (C03: "initial_call is True on the first call after each entry ...
+            # by falling back to the default state")
+            self.bump("done-while-default-runs")
         if self.executing:
             self.bump("stop:explicit")
         self.cur = None
@@ -512,8 +514,6 @@ class SpecSM:
                     self.miss("done-missing@in-state", ("C04",), "in-state done() left no marker")
                 if self.executing:
                     self.bump("stop:in-state-done")
-                if c == sp.default:
-                    self.has_run[c] = None
                 self.cur = None
                 self.executing = False
                 if sp.auto:
